@@ -44,7 +44,9 @@ _TWO_CHANNELS = [
         {"name": "sig", "data": [6.0, 9.0], "modifiers": [{"name": "mu", "type": "normfactor", "data": None}]},
         {"name": "bkg", "data": [55.0, 48.3], "modifiers": [
             {"name": "shape", "type": "histosys", "data": {"lo_data": [50.0, 46.0], "hi_data": [61.0, 49.5]}},
-            {"name": "norm", "type": "normsys", "data": {"lo": 0.9, "hi": 1.1}}]},
+            {"name": "norm", "type": "normsys", "data": {"lo": 0.9, "hi": 1.1}},
+            # one parameter name carried by modifiers of two types (the usual correlated normsys + histosys pair)
+            {"name": "norm", "type": "histosys", "data": {"lo_data": [53.0, 47.5], "hi_data": [57.5, 49.0]}}]},
         {"name": "alt", "data": [2.0, 5.0], "modifiers": [{"name": "mu_alt", "type": "normfactor", "data": None}]}]},
     {"name": "CR", "samples": [
         {"name": "bkg", "data": [120.0], "modifiers": [
